@@ -554,6 +554,80 @@ def long_shard(seed_value, n):
     return stats
 
 
+def _atheris_deps():
+    """directory holding an importable atheris (installed offline next to the checkout), or None"""
+    import subprocess
+    deps = os.path.join(os.path.dirname(os.path.dirname(os.path.abspath(__file__))), '.deps')
+    probe = [sys.executable, '-c', 'import sys; sys.path.insert(0, sys.argv[1]); import atheris', deps]
+    if subprocess.run(probe, capture_output=True).returncode == 0:
+        return deps
+    subprocess.run([sys.executable, '-m', 'pip', 'install', '-q', '--no-index', '--find-links', '/opt/veriftools/wheels',
+                    '--target', deps, 'atheris'], capture_output=True)
+    return deps if subprocess.run(probe, capture_output=True).returncode == 0 else None
+
+
+def fuzz_campaign(run, runs, workers=16):
+    """coverage-guided part (thorough tier): 16 libFuzzer processes, half from an empty corpus, half seeded with corpus lines"""
+    import json
+    import shutil
+    import subprocess
+    import tempfile
+    deps = _atheris_deps()
+    if deps is None:
+        run.coverage_extra['atheris'] = 'not available (wheel could not be installed); part skipped'
+        return
+    root = tempfile.mkdtemp(prefix='vk_c12_fuzz_')
+    here = os.path.dirname(os.path.dirname(os.path.abspath(__file__)))
+    toks = sorted(set(MULTI + [':[', ';', ']', '{', '}', '(', ')', '"', '0c', ':"', "'", '/', '\\', '::', '.comment(', '.module(',
+                               ':sym', '1.5e3', ':{[', '@', '~', ':|', '""', '"a"', '[]', '()', '{}', ':[1;2;3]', "'", ':#', ':=']))
+    try:
+        procs = []
+        lines = corpus()
+        for i in range(workers):
+            out = os.path.join(root, f'out{i}')
+            cdir = os.path.join(root, f'corpus{i}')
+            os.makedirs(out)
+            os.makedirs(cdir)
+            if i % 2 == 1:
+                for j, line in enumerate(lines[i::workers][:300]):
+                    with open(os.path.join(cdir, f's{j}'), 'w') as f:
+                        f.write(line)
+            with open(os.path.join(out, 'tokens.dict'), 'w') as f:
+                for j, t in enumerate(toks):
+                    f.write('t%d="%s"\n' % (j, t.replace('\\', '\\\\').replace('"', '\\"')))
+            env = dict(os.environ, PYTHONHASHSEED='0')
+            procs.append((out, subprocess.Popen([sys.executable, '-m', 'vk.c12_fuzz', out, cdir, str(runs), str(run.seed * 100 + i + 1), deps],
+                                                cwd=here, env=env, stdout=subprocess.DEVNULL, stderr=subprocess.DEVNULL)))
+        for out, pr in procs:
+            try:
+                pr.wait(timeout=3600)
+            except subprocess.TimeoutExpired:
+                pr.kill()
+        total = {"execs": 0, "nontrivial": 0, "parsed": 0, "failures": 0, "max_len": 0, "max_fraction": 0.0, "workers": workers,
+                 "runs_per_worker": runs}
+        stats = core.Stats()
+        f = core.Findings("C12")
+
+        def report(fkey, case, expected=None, observed=None, note=None):
+            stats.fail(fkey, case, expected, observed, note)
+        for out, pr in procs:
+            try:
+                c = json.load(open(os.path.join(out, 'stats.json')))
+            except Exception:
+                continue
+            for k in ('execs', 'nontrivial', 'parsed', 'failures'):
+                total[k] += c.get(k, 0)
+            total['max_len'] = max(total['max_len'], c.get('max_len', 0))
+            total['max_fraction'] = max(total['max_fraction'], c.get('max_fraction', 0.0))
+            for fn in sorted(glob.glob(os.path.join(out, 'fail-*.json'))):
+                j = json.load(open(fn))
+                judge(stats, report, j['text'], 'atheris', do_eval=False)     # re-checked and minimised by the common path
+        run.absorb(stats)
+        run.coverage_extra['atheris'] = total
+    finally:
+        shutil.rmtree(root, ignore_errors=True)
+
+
 def check(run):
     quick = run.tier == 'quick'
     S = run.seed * 1000
@@ -564,6 +638,7 @@ def check(run):
     run.absorb(core.pool_map('vk.c12_parse', 'long_shard', [(S + i, 60 if quick else 2000) for i in range(16)]))
     if not quick:
         run.absorb(core.pool_map('vk.c12_parse', 'single_edit_shard', [(i, 16, 4) for i in range(16)]))
+        fuzz_campaign(run, runs=int(os.environ.get('VK_C12_FUZZ_RUNS', '30000')))
     run.exhaustive = True
     run.coverage_extra['exhaustive_parts'] = ['all strings of length<=3 over the 39-character alphabet',
                                               '1-2 multi-character tokens x <=3 structural characters']
